@@ -415,6 +415,46 @@ func (r *c08Runner) run(c c08Case) *Failure {
 	if fail != nil {
 		return fail
 	}
+	// failed calls, then the same message at once from many goroutines: whatever a failing call left
+	// in a pool must not be handed to two of them
+	for g := range regs {
+		for k := range regs[g] {
+			p := &regs[g][k]
+			if p.op != "decode" || p.vd.Kind != core.VOK || (g+k+c08Round)%3 != 0 {
+				continue
+			}
+			cuts := boundaryCuts(p.msg)
+			for i, cut := range cuts {
+				if i >= 16 {
+					break
+				}
+				d := newDest(p.b)
+				if _, err, f := fDecode(append([]byte{}, p.msg[:cut]...), d.Interface()); f != nil {
+					return f
+				} else if err == nil {
+					return failf("malformed-accepted", "a message cut at offset %d of %d was accepted", cut, len(p.msg))
+				}
+			}
+			var wg2 sync.WaitGroup
+			for h := 0; h < 8; h++ {
+				wg2.Add(1)
+				go func(h int) {
+					defer wg2.Done()
+					for j := 0; j < 6; j++ {
+						if f := p.exec(); f != nil {
+							setFail(f, fmt.Sprintf("goroutine %d of 8 decoding one message concurrently after %d failed decodes of its prefixes", h, min(len(cuts), 16)))
+							return
+						}
+					}
+				}(h)
+			}
+			wg2.Wait()
+			if fail != nil {
+				return fail
+			}
+			r.w.label("failed-prefixes-then-concurrent-decodes")
+		}
+	}
 	if c.Storm > 0 || c08Round == 1 {
 		ms := c.Storm
 		if ms == 0 {
